@@ -343,6 +343,15 @@ def ty_head(t):
     return t.split("<", 1)[0].strip()
 
 
+def ty_norm(t):
+    """type string without references and lifetimes (for comparing concrete instantiations)"""
+    t = t.strip()
+    t = re.sub(r"&('[a-z_0-9]+ )?(mut )?", "", t)
+    t = re.sub(r"'[a-z_0-9]+(, )?", "", t)
+    t = t.replace("<>", "")
+    return t.replace(" ", "")
+
+
 def short_fn(path):
     """compact callee name for keys: last two path segments without generics"""
     p = re.sub(r"<[^<>]*>", "", path)
@@ -413,6 +422,13 @@ class Program:
     def call_targets(self, body, term):
         """set of local body ids a call terminator may reach"""
         out = set()
+        # closures created in this body and passed as arguments may be called by the callee
+        for a in term.get("args", []):
+            q = op_place(a)
+            if q is not None and not q["p"]:
+                sd = body.single_def(q["l"])
+                if sd and sd[2] == "assign" and sd[3].get("r") == "agg" and sd[3].get("closure") in self.bodies:
+                    out.add(sd[3]["closure"])
         decl, res, info = callee_of(term)
         if info is None:
             # indirect call through a fn pointer / closure value: over-approximate by the
@@ -439,6 +455,12 @@ class Program:
                 # default body of a local trait
                 if decl in self.bodies:
                     out.add(decl)
+                # a foreign implementation may call back through the bounds of the method's generics
+                for tr2, self_ty in ([] if tr in self.local_traits else info.get("preds", [])):
+                    if tr2 == tr or ty_head(self_ty) not in self.impl_heads:
+                        continue  # only concrete local types (a bare type parameter is handled by the instantiation sets)
+                    for cb in self._callbacks_for(tr2, self_ty):
+                        out.add(cb)
             return out
         if rk in ("closure_once_shim", "fnptr_shim", "reify_shim"):
             if res in self.bodies:
@@ -533,9 +555,19 @@ class Program:
         ims = self.impls_by_trait.get(trait, ())
         if ims:
             h = ty_head(self_ty)
+            ns = ty_norm(self_ty)
             for im in ims:
                 ih = ty_head(im["self"])
-                if ih == h or re.match(r"^[A-Z][A-Za-z0-9]*$", im["self"]):
+                if re.match(r"^[A-Z][A-Za-z0-9]*$", im["self"]):
+                    ok = True  # blanket impl
+                elif ih != h:
+                    ok = False
+                else:
+                    ni = ty_norm(im["self"])
+                    generic_i = re.search(r"(^|[<,( ])[A-Z][A-Za-z0-9]?($|[>,) ])", ni) is not None
+                    generic_s = re.search(r"(^|[<,( ])[A-Z][A-Za-z0-9]?($|[>,) ])", ns) is not None
+                    ok = True if (generic_i or generic_s) else (ni == ns)
+                if ok:
                     for m in im["methods"]:
                         out.append(m["def"])
         self._cbcache[key] = out
